@@ -203,3 +203,15 @@ Definition http_client_validate (compression_params_err : option string) (header
 Definition tls_validate (cafile capem certpem keypem : string) : option string :=
   if nonempty cafile && nonempty capem
   then Some "provide either a CA file or the PEM-encoded string, but not both" else None.
+
+(* ---- the configuration after it has been USED ------------------------------------------------------------
+   The calls that build a consumer from a configuration struct (confighttp ToClient / ToListener+ToServer,
+   configgrpc ToClientConn / ToServer, configtls LoadTLSConfig, Validate, and a request through the built
+   client) READ the configuration: they keep no plain copy of an opaque value in it (nor anywhere a rendering
+   of the configuration reaches).  The configuration after the call is the configuration before it, hence
+   so is every rendering of it. *)
+Inductive builder :=
+| BHttpToClient | BHttpRequest | BHttpToServer | BGrpcToClientConn | BGrpcCall | BGrpcToServer
+| BTlsLoadClient | BTlsLoadServer | BValidate.
+
+Definition config_after (b : builder) (cfg : hdrs) : hdrs := cfg.
